@@ -2,8 +2,8 @@ package scen
 
 import (
 	"fmt"
-	"regexp"
 	"path/filepath"
+	"regexp"
 	"strings"
 	"syscall"
 
